@@ -120,6 +120,12 @@ def run(ctx):
             reqs.append({"iface": "rust", "split": 0, "shuffle": rng.choice([1, 4, 100]), "repeat": False, "file_parallelism": rng.choice([1, 2, 5])})
             reqs.append({"iface": "rust", "split": 0, "shuffle": 0, "repeat": False, "file_parallelism": rng.choice([2, 3]), "take": rng.choice([1, 2, 3])})
             jobs.append({"dataset": spec, "requests": reqs})
+    # many shards per thread (11 and 5 shards, 1..5 threads): a reader that splits the shard list among its threads must not lose the remainder
+    Wr = ["W", 0, None, True]
+    for nsh in (11, 5):
+        spec = {"format": "fb", "compression": "", "eps": 1, "sessions": [{"kind": "filler", "sub": [], "reopen": False, "ops": [Wr] * nsh}]}
+        jobs.append({"dataset": spec, "requests": [{"iface": "sync", "split": 0, "shuffle": 0, "repeat": False}] +
+                     [{"iface": "rust", "split": 0, "shuffle": 0, "repeat": False, "file_parallelism": fp} for fp in (1, 2, 3, 4, 5)]})
     if not ctx.quick:
         # a consumer that pauses longer than any plausible idle timeout of the reader threads
         spec = iterlib.gen_dataset(rng, fmt="fb", min_shards=6, max_sessions=1)
